@@ -667,6 +667,7 @@ func runC20(c *Ctx) {
 	nT := c.scale(2000, 30000)
 	nD := c.scale(800, 10000)
 	nB := c.scale(3000, 40000)
+	c20BlankEager(c, c.RNG.Fork(), c.scale(30, 600)) // cheap, and first: a search with a time budget must reach it
 	for i := 0; i < nT; i++ {
 		c20Transforming(c, c.RNG.Fork(), false)
 	}
@@ -676,7 +677,6 @@ func runC20(c *Ctx) {
 	for i := 0; i < nB; i++ {
 		c20Blank(c, c.RNG.Fork())
 	}
-	c20BlankEager(c, c.RNG.Fork(), c.scale(30, 600))
 }
 
 // c20SpyDecoder is the inner decoder of the decoder cases: it renders the logical value as JSON for
